@@ -20,7 +20,7 @@ import vplib
 import prop_lib as pl
 
 VFILES = ["PropTree/PropModel.v", "PropTree/DocSpec.v", "PropTree/PropProofs.v",
-          "PropTree/QuoteProofs.v", "Properties_C13.v"]
+          "PropTree/QuoteProofs.v", "PropTree/RebuildProofs.v", "PropTree/ApiProofs.v", "Properties_C13.v"]
 
 # (name, script): probes for the candidate defects of DESIGN.md section 7 and for boundary cases;
 # each runs in its own process so that a crash does not hide the others
@@ -35,7 +35,7 @@ PROBES = [
                                     ("copyout", b"a"), ("copyout", b"b"), ("copyin", b"z.y")]),
     ("strtol_narrowing", [("set", b"[4294967297]=x"), ("set", b"[99999999999999999999]=x"), ("set", b"[2147483648]=y"),
                           ("get", b"[4294967296]"), ("get", b"[18446744073709551617]")]),
-    ("set_conforms_then_fails", [("set", b"a=1"), ("set", b"a{}=x"), ("type", b"a"), ("set", b"a[]"), ("type", b"a"),
+    ("refused_set_leaves_tree_unchanged", [("set", b"a=1"), ("set", b"a{}=x"), ("type", b"a"), ("set", b"a[]"), ("type", b"a"),
                                  ("set", b"b[99999999999999999999]=x"), ("type", b"b")]),
     ("trim_after_escapes", [("set", b"\\.\\.a  =x"), ("keys", b"."), ("set", b"a\\.b  =y"), ("keys", b"."),
                             ("set", b"a\\ \\ =z"), ("keys", b"."), ("set", b"p  .q =1"), ("keys", b"{}")]),
@@ -53,6 +53,12 @@ def _sig_for(d):
         sig = vplib.asan_signature(d.stderr)
         if sig is None:
             sig = {"kind": "fault", "error": "exit %s" % d.rc, "function": None}
+        if sig.get("function") is None:
+            # leaks allocated inside libyaml: the fast unwinder loses the libvna frame
+            for name in ("yaml_parser_initialize", "yaml_emitter_initialize", "yaml_document_initialize"):
+                if name in d.stderr:
+                    sig["function"] = name
+                    break
         return sig
     op = d.script[d.index]
     return {"kind": "disagreement", "op": op[0], "class": pl.classify_descriptor(op[1] if len(op) > 1 else b"")}
